@@ -69,3 +69,15 @@ Proof.
   apply orb_true_iff in Hb. destruct Hb as [Hb|Hb]; [left; apply wf_tcoeffs_b_spec; exact Hb|].
   right. destruct s; try discriminate. exists kvs. reflexivity.
 Qed.
+
+(* the hypotheses of the cube theorems are satisfiable *)
+Example ex_cube_inhabited :
+  In tc_dict cube /\ In APyBool cube /\ In ANone cube /\ Regular tc_dict /\
+  WfPriorIwp Dense tc_dict APyBool ANone /\ prior_iwp Dense tc_dict APyBool ANone = Accept.
+Proof.
+  split; [unfold cube; apply in_or_app; right; apply in_or_app; right; left; reflexivity|].
+  split; [unfold cube; apply in_or_app; left; simpl; tauto|].
+  split; [unfold cube; apply in_or_app; left; simpl; tauto|].
+  split; [apply regular_b_spec; vm_compute; reflexivity|].
+  split; [apply wf_prior_iwp_b_spec; vm_compute; reflexivity | vm_compute; reflexivity].
+Qed.
